@@ -27,12 +27,22 @@ CHECKS = {
          "real simulator; grants, pointer update, reset and the wait bound are compared with an integer pointer model in every transition.",
          "Trusted: the 15-line pointer model. Only nreqs up to the bound; DefaultPassGroup scheduling (schedule independence is C01's subject).",
          "DESIGN.md 6.C19", "E1"),
+ "C17": ("model_checking",
+         "explicit-state BFS to closure over the product (real queue registers, reference list); one fresh elaboration + history replay per transition",
+         "Every RTL queue of stdlib/queues/queues.py, enrdy_queues.py and stream/queues.py and every CL queue, capacities 1..3 (4 thorough), messages {1,2,3} "
+         "and a struct entry type, is driven by every protocol-legal (enq offer, msg, deq offer) letter from every reachable state; rdy/val, delivered message, "
+         "fire signals and count are compared with a list model each cycle.",
+         "Trusted: vt/fifo.py (40 lines) and the en/rdy clipping loop of the harness. valrdy_queues.py is unimportable on this tree and therefore not covered. "
+         "Reset mid-history is not part of the property and not explored.",
+         "DESIGN.md 6.C17", "E1 E4"),
 }
 
 NOT_YET = {}
 
 ENGINES = [
   dict(name="E1", path="vt/explore.py", kind_free_text="explicit-state / stateless exploration library: choice-point DFS, linear extensions, BFS by history over the real transition function",
+       serves_properties=[]),
+  dict(name="E4", path="vt/fifo.py", kind_free_text="small independent reference models (FIFO list spec, memory, ISA interpreter, VCD reader, struct layout)",
        serves_properties=[]),
 ]
 
